@@ -486,6 +486,8 @@ def check_C12(tier):
     engine_run(c, "files", "CoreLimitMenu", lines="Lines3", maxlines=4 if t else 3, maxfiles=3, tdefs=("plain",))
     # a joined file of 34 lines (with non-rows among them): every line of it must reach the join
     engine_run(c, "long-joined-file", "JoinMenu", lines="LinesJ", maxlines=2, maxfiles=1, joinsets="JoinSetsLong", tdefs=("plain",))
+    # a byte order mark at the start of the first / a later file is part of that file's first line, like any other character (files are read the same way wherever they stand)
+    engine_run(c, "bom-first-line", "BomMenu", lines="LinesBom", maxlines=2, maxfiles=2, modes=("batch",), tdefs=("anch", "plain"))
     # the process itself: input files in command-line order, FROM t::'file' and --stdin replacing them, a file that cannot be opened, statistics
     cli_run(c, "files", ["all", "count", "limit1", "limit2", "from", "frommissing"], ["ok"], ["json"], 3 if t else 2, fileids=("fa", "fb", "fc", "fe", "missing") if t else ("fa", "fb", "fe", "missing"))
     laws_trace(c, 2 if t else 1, 300 if t else 100)
@@ -757,6 +759,11 @@ def check_C15(tier):
     engine_run(c, "order-errors", "ErrAggMenu", lines="LinesErrAgg", maxlines=3, maxfiles=1, tdefs=("plain",), modes=("batch", "incr"), invs=["TypeOK", "BatchRefinesSem", "PermLaw"], props=())
     # LIMIT next to HAVING / DISTINCT: which groups fill the limit does not depend on the order in which groups first appear
     engine_run(c, "order-limit", "OrderLimitMenu", lines="Lines3", maxlines=4 if t else 3, maxfiles=1, tdefs=("plain",), invs=["TypeOK", "BatchRefinesSem", "PermLaw"], props=())
+    # the result over a concatenation of files does not depend on which file a line stands in -- also a line that starts with a byte order mark
+    engine_run(c, "bom-files", "BomMenu", lines="LinesBom", maxlines=2, maxfiles=2, modes=("batch",), tdefs=("anch", "plain"), invs=["TypeOK", "BatchRefinesSem"], props=())
+    # follow mode shows the table of the lines consumed after every line, whatever the order of the lines and however many arrive at once (a line that
+    # yields no row last, a burst of lines already waiting in the file)
+    engine_follow_run(c, "order", "CoreMenu", lines="LinesNoise", maxlines=3, tdefs=("plain",), sample=1500 if t else 400)
     # COUNT(DISTINCT) with up to 10 distinct values and recurrences: long random inputs
     engine_sim(c, "count-distinct", "DistinctCountMenu", lines="LinesDistinct", maxlines=16, num=4000 if t else 500, modes=("batch",), invs=["TypeOK", "BatchRefinesSem"])
     engine_sim(c, "count-distinct-wide", "DistinctCountMenu", lines="LinesDistinctWide", maxlines=48, num=1000 if t else 70, modes=("batch",), invs=["TypeOK", "BatchRefinesSem"], minlines=40)
